@@ -281,3 +281,39 @@ wr_harness!(c17_wr_vec_b7_d10, 7, 10, 0, prefilled_vec(0));
 // @bound variable subset 111 (bits 7) x every max_conns with 19 decimal digits x Vec<u8> pre-filled with 0 bytes; to_compact_string = E5b model
 // @functions ProtocolVariables::write_response<Vec<u8>>, nv::write, RecordHeader::set_lengths, RecordHeader::padding_bytes
 wr_harness!(c17_wr_vec_b7_d19, 7, 19, 0, prefilled_vec(0));
+
+// ------------------------------------------------------------------------------------------------ parse_name (real)
+
+// @harness name=c17_parse_name props=C17,C04 tier=quick timeout=1500
+// @bound the three queryable names (symbolic choice) exact, with ONE byte at a symbolic position replaced by any other byte value (256 values incl. non-UTF-8), truncated by one byte, or extended by one symbolic byte; plus the empty name
+// @functions ProtocolVariables::parse_name, bitflags from_name
+#[kani::proof]
+#[kani::unwind(20)]
+fn c17_parse_name() {
+    let which: usize = kani::any();
+    kani::assume(which < 3);
+    let name = NAMES[which];
+    let mut buf = [0u8; 16];
+    let mut i = 0; while i < name.len() { buf[i] = name[i]; i += 1; }
+    let mode: u8 = kani::any();
+    kani::assume(mode < 5);
+    let k: usize = kani::any();
+    kani::assume(k < name.len());
+    let b: u8 = kani::any();
+    let (len, expect_ok) = match mode {
+        0 => (name.len(), true),
+        1 => { kani::assume(b != name[k]); buf[k] = b; (name.len(), false) }
+        2 => (name.len() - 1, false),
+        3 => { buf[name.len()] = b; (name.len() + 1, false) }
+        _ => (0, false),
+    };
+    match ProtocolVariables::parse_name(&buf[..len]) {
+        Ok(v) => { assert!(expect_ok, "a name that is not exactly one of the three variable names was recognised"); assert!(v.bits() == 1 << which, "wrong variable for a known name"); }
+        Err(ProtocolError::UnknownVariable) => assert!(!expect_ok, "an exact variable name was not recognised"),
+        Err(_) => panic!("wrong error variant"),
+    }
+    kani::cover!(mode == 1 && b == name[k] + 32, "same name with one lower-case letter is unknown");
+    kani::cover!(mode == 1 && b >= 0x80, "non-UTF-8 byte inside the name");
+    kani::cover!(mode == 3, "known name with a trailing byte");
+    kani::cover!(mode == 0 && which == 2, "FCGI_MPXS_CONNS");
+}
